@@ -306,6 +306,14 @@ bool PeriodicExportingMetricReader::OnForceFlush(std::chrono::microseconds timeo
     timeout_steady -= std::chrono::steady_clock::now() - start_timepoint;
   }
 
+  if (result &&
+      force_flush_notified_sequence_.load(std::memory_order_acquire) < current_sequence)
+  {
+    // The wait also ends when the reader is shut down. The sequence of this call has not been
+    // published then: its collection has not been exported, so there is nothing to flush yet.
+    result = false;
+  }
+
   if (result)
   {
     // - If original `timeout` is `zero`, use that in exporter::forceflush
